@@ -102,7 +102,7 @@ func missingTracksRule(c *Ctx, rule string, readFrom *ssa.Function) {
 	}
 	n := 0
 	for _, r := range allReturns(readFrom) {
-		if !isNilConst(r.Results[len(r.Results)-1]) {
+		if !isNilConst(retVal(r, len(r.Results)-1)) {
 			continue
 		}
 		n++
@@ -127,7 +127,7 @@ func missingTracksRule(c *Ctx, rule string, readFrom *ssa.Function) {
 				okE := false
 				if len(te.to.Instrs) > 0 {
 					if r, ok := te.to.Instrs[len(te.to.Instrs)-1].(*ssa.Return); ok {
-						okE = definitelyNonNil(r.Results[len(r.Results)-1], map[ssa.Value]bool{}, map[*ssa.BasicBlock]bool{te.to: true}, te, map[ssa.Value]bool{})
+						okE = definitelyNonNil(retVal(r, len(r.Results)-1), map[ssa.Value]bool{}, map[*ssa.BasicBlock]bool{te.to: true}, te, map[ssa.Value]bool{})
 					}
 				}
 				c.Check(okE, rule, "missing tracks => error", p.Pos(iff.Pos()), "the tracks-missing edge returns a sentinel error", "the tracks-missing edge does not return an error")
